@@ -272,6 +272,8 @@ def handle (op : String) (args res : List String) : Option Verdict :=
   match op with
   | "geninv_series" => some (handleSeries args res)
   | "geninv_kern" => some (handleKern args res)
+  | "ginv_entry" => some (.skip "agreement of the entry points is judged by the harness")
+  | "geodsolve_inv" => some (if res == ["0"] then .skip "the front end's output is judged by the harness" else .bad s!"GeodSolve -i returned {res}")
   | _ => none
 
 end GeoVerif.Corr.C02Full
